@@ -106,10 +106,18 @@ def outcome(t, ns):
 _fresh = {}
 
 
+_NS = {}
+
+
 def caller_namespace(ns):
     """a caller's own namespace (a TemplateDict) a template is rendered into as a sub-template"""
     from DocumentTemplate._DocumentTemplate import TemplateDict
-    md = TemplateDict()
+    # (callers' namespaces are often instances of a subclass: the restricted namespace of an application server)
+    cls = _NS.get('c')
+    if cls is None:
+        cls = _NS['c'] = type('CallerNamespace', (TemplateDict,), {})
+    _NS['k'] = _NS.get('k', 0) + 1
+    md = (cls if _NS['k'] % 3 else TemplateDict)()
     md.guarded_getattr = md.guarded_getitem = None
     md._push({'y': 'caller-y', 'a': 'caller-a'})
     md._push(dict(ns))
@@ -161,6 +169,9 @@ def run_history(h):
     nss = namespaces()
     pristine = [plain(n) for n in nss]
     given, gkw = given_as('d0')
+    # another template of the process has variables of its own (set through var()): nobody else's business
+    other = HTML('<dtml-var a>')
+    other.var(a='OTHER-TEMPLATE-A', y='OTHER-Y', seq=[99], _u='OTHER-U')
     t = HTML(SOURCES[hist[0][1] - 1], given, **gkw)
     cur_defaults = 'd0'
     k = 0
